@@ -21,6 +21,7 @@ import (
 
 	core "github.com/envoyproxy/go-control-plane/envoy/config/core/v3"
 	discovery "github.com/envoyproxy/go-control-plane/envoy/service/discovery/v3"
+	rpcstatus "google.golang.org/genproto/googleapis/rpc/status"
 	"google.golang.org/grpc/codes"
 	"google.golang.org/grpc/status"
 
@@ -89,13 +90,17 @@ func recvNode(k string) *core.Node {
 
 type scriptedSotw struct {
 	baseStream
-	reqs []*discovery.DiscoveryRequest
-	i    int
-	sent int
+	reqs   []*discovery.DiscoveryRequest
+	i      int
+	sent   int
+	endErr bool
 }
 
 func (s *scriptedSotw) Recv() (*discovery.DiscoveryRequest, error) {
 	if s.i >= len(s.reqs) {
+		if s.endErr {
+			return nil, status.Error(codes.Internal, "transport broke")
+		}
 		return nil, io.EOF
 	}
 	s.i++
@@ -105,13 +110,17 @@ func (s *scriptedSotw) Send(*discovery.DiscoveryResponse) error { s.sent++; retu
 
 type scriptedDelta struct {
 	baseStream
-	reqs []*discovery.DeltaDiscoveryRequest
-	i    int
-	sent int
+	reqs   []*discovery.DeltaDiscoveryRequest
+	i      int
+	sent   int
+	endErr bool
 }
 
 func (s *scriptedDelta) Recv() (*discovery.DeltaDiscoveryRequest, error) {
 	if s.i >= len(s.reqs) {
+		if s.endErr {
+			return nil, status.Error(codes.Internal, "transport broke")
+		}
 		return nil, io.EOF
 	}
 	s.i++
@@ -130,6 +139,8 @@ func errClass(err error) string {
 		return "missing-node"
 	case st != nil && st.Code() == codes.InvalidArgument:
 		return "bad-node"
+	case st != nil && st.Code() == codes.Internal && strings.Contains(msg, "transport broke"):
+		return "stream-error"
 	}
 	return "other"
 }
@@ -177,15 +188,31 @@ func runRecv(mode string, items []string) (res recvResult) {
 		}
 	}()
 	srv := realServer()
+	// a trailing ERR: the stream breaks with an unexpected transport error instead of a clean EOF
+	endErr := len(items) > 0 && items[len(items)-1] == "ERR"
+	if endErr {
+		items = items[:len(items)-1]
+	}
 	classes := make([]string, len(items))
+	// mode sotwA / deltaA: the client is authenticated (mTLS identity of the proxy's namespace)
+	var ids []string
+	if strings.HasSuffix(mode, "A") {
+		ids = []string{"spiffe://cluster.local/ns/ns/sa/default"}
+		mode = strings.TrimSuffix(mode, "A")
+	}
 	if mode == "delta" {
-		st := &scriptedDelta{}
+		st := &scriptedDelta{endErr: endErr}
 		for i, it := range items {
-			p := strings.SplitN(it, "/", 2)
+			p := strings.Split(it, "/")
 			classes[i] = p[0]
-			st.reqs = append(st.reqs, &discovery.DeltaDiscoveryRequest{TypeUrl: recvTypeURL[p[0]], Node: recvNode(p[1])})
+			r := &discovery.DeltaDiscoveryRequest{TypeUrl: recvTypeURL[p[0]], Node: recvNode(p[1])}
+			if len(p) > 2 && p[2] == "e" {
+				// error_detail with a code other than the usual INTERNAL
+				r.ErrorDetail = &rpcstatus.Status{Code: int32(codes.InvalidArgument), Message: "rejected"}
+			}
+			st.reqs = append(st.reqs, r)
 		}
-		con := pxds.VerifC04NewDeltaStreamConnection(srv, st, nil)
+		con := pxds.VerifC04NewDeltaStreamConnection(srv, st, ids)
 		r := pxds.VerifC04ReceiveDelta(srv, con)
 		if r.Panic != nil {
 			return recvResult{crash: true}
@@ -205,13 +232,17 @@ func runRecv(mode string, items []string) (res recvResult) {
 		}
 		return res
 	}
-	st := &scriptedSotw{}
+	st := &scriptedSotw{endErr: endErr}
 	for i, it := range items {
-		p := strings.SplitN(it, "/", 2)
+		p := strings.Split(it, "/")
 		classes[i] = p[0]
-		st.reqs = append(st.reqs, &discovery.DiscoveryRequest{TypeUrl: recvTypeURL[p[0]], Node: recvNode(p[1])})
+		r := &discovery.DiscoveryRequest{TypeUrl: recvTypeURL[p[0]], Node: recvNode(p[1])}
+		if len(p) > 2 && p[2] == "e" {
+			r.ErrorDetail = &rpcstatus.Status{Code: int32(codes.InvalidArgument), Message: "rejected"}
+		}
+		st.reqs = append(st.reqs, r)
 	}
-	con := pxds.VerifC04NewStreamConnection(srv, st, nil)
+	con := pxds.VerifC04NewStreamConnection(srv, st, ids)
 	r := pxds.VerifC04Receive(con)
 	if r.Panic != nil {
 		return recvResult{crash: true}
@@ -264,7 +295,7 @@ func genRecv(seed uint64, n int, outp string) {
 		c++
 	}
 	// every single first request, both protocols (exhaustive over the classes)
-	for _, mode := range []string{"sotw", "delta"} {
+	for _, mode := range []string{"sotw", "delta", "sotwA", "deltaA"} {
 		for _, t := range recvTypeClasses {
 			for _, nd := range recvNodeClasses {
 				if c < n {
@@ -275,19 +306,28 @@ func genRecv(seed uint64, n int, outp string) {
 	}
 	for c < n {
 		r := root.Fork()
-		mode := wire.Pick(r, []string{"sotw", "delta"})
+		mode := wire.Pick(r, []string{"sotw", "delta", "sotwA", "deltaA"})
+		opt := func() string {
+			if r.Chance(1, 5) {
+				return "/e"
+			}
+			return ""
+		}
 		var items []string
 		// leading health probes, then a first request (mostly valid), then anything
 		for r.Chance(1, 3) {
 			items = append(items, "health/"+wire.Pick(r, recvNodeClasses))
 		}
-		first := wire.Pick(r, recvTypeClasses) + "/ok"
+		first := wire.Pick(r, recvTypeClasses) + "/ok" + opt()
 		if r.Chance(1, 3) {
-			first = wire.Pick(r, recvTypeClasses) + "/" + wire.Pick(r, recvNodeClasses)
+			first = wire.Pick(r, recvTypeClasses) + "/" + wire.Pick(r, recvNodeClasses) + opt()
 		}
 		items = append(items, first)
-		for k := r.Intn(4); k > 0; k-- {
-			items = append(items, wire.Pick(r, recvTypeClasses)+"/"+wire.Pick(r, recvNodeClasses))
+		for k := r.Intn(5); k > 0; k-- {
+			items = append(items, wire.Pick(r, recvTypeClasses)+"/"+wire.Pick(r, recvNodeClasses)+opt())
+		}
+		if r.Chance(1, 6) {
+			items = append(items, "ERR")
 		}
 		emit(mode, items)
 	}
@@ -308,6 +348,16 @@ func oracleRecv(in, outp string) {
 			items = strings.Split(f[2], ";")
 		}
 		res := runRecv(f[1], items)
+		endErr := len(items) > 0 && items[len(items)-1] == "ERR"
+		if endErr {
+			items = items[:len(items)-1]
+			if res.err == "stream-error" {
+				res.err = "none" // reported as it should be; the clauses below are about the rest
+			} else if res.err == "none" && !res.crash {
+				out.Line("FAIL transport-error-reported " + wire.Enc(res.String()))
+				continue
+			}
+		}
 		verdict := "OK"
 		// index of the first request that is not a health probe
 		first := -1
@@ -320,7 +370,7 @@ func oracleRecv(in, outp string) {
 		switch {
 		case res.crash:
 			verdict = "FAIL never-crashes " + wire.Enc(strings.Join(f, " "))
-		case first >= 0 && !strings.HasSuffix(items[first], "/ok"):
+		case first >= 0 && strings.Split(items[first], "/")[1] != "ok":
 			if res.err == "none" || len(res.fwd) > 0 || res.init {
 				verdict = "FAIL first-request-without-valid-node-refused " + wire.Enc(res.String())
 			}
@@ -334,9 +384,20 @@ func oracleRecv(in, outp string) {
 			if res.err != "none" || !res.init || fmt.Sprint(got) != fmt.Sprint(want) || fmt.Sprint(got) != fmt.Sprint(res.fwd) {
 				verdict = "FAIL valid-stream-forwards-every-request-in-order " + wire.Enc(res.String())
 			}
+			firstOfClass := map[string]bool{}
 			for _, p := range res.proc {
 				// a health probe or a debug request never creates a watch
 				q := strings.Split(p, ":")
+				// a first CDS request on the stream is answered (with or without error_detail: a NACK queued on the
+				// previous stream) and the type is watched afterwards
+				if q[0] == "cds" && !firstOfClass["cds"] && (q[1] != "1" || q[2] != "1" || q[3] != "0") {
+					verdict = "FAIL first-cds-request-answered " + wire.Enc(res.String())
+				}
+				firstOfClass[q[0]] = true
+				// an authenticated debug request is answered
+				if strings.HasSuffix(f[1], "A") && strings.HasPrefix(q[0], "debug") && q[1] != "1" {
+					verdict = "FAIL authenticated-debug-request-answered " + wire.Enc(res.String())
+				}
 				if (q[0] == "health" || strings.HasPrefix(q[0], "debug")) && q[2] != "0" {
 					verdict = "FAIL health-or-debug-request-created-a-watch " + wire.Enc(res.String())
 				}
